@@ -6,6 +6,7 @@ from . import e1common
 ASSUME = [
     "UID alphabet: an 89-character UID (its stored line is folded) in two versions and its 70-character prefix; u1 (two summaries), U1 (case), 'u 1' (space), 'u\\\\,1' (escaped comma), u2, an object whose first component is a VTIMEZONE, objects without UID",
     "UID of a resource = unescaped value of the UID line of the first sub-component that has one (independent content-line reader)",
+    "one configuration has two workers: a second application object with its own store cache (and so its own uid maps) on the same directory; every write is offered to either worker, both are audited after every request",
     "the store caches (uid maps) are part of the state key, so histories that differ only in cache staleness are distinct states",
 ]
 
@@ -26,6 +27,8 @@ def configs(tier):
         Config(front="wsgi", backend="tree", prefix="/", names={"cal": list(names[:2]), "ab": [], "c2": []}, bodies={"cal": list(bods[:5]), "ab": [], "c2": []},
                features={"restart", "post", "burst"}, oracles={"C06"}),
     ]
+    out.append(Config(front="wsgi", backend="tree" if tier == "quick" else "bare", prefix="/", names={"cal": ["a.ics", "b.ics"], "ab": [], "c2": []}, bodies={"cal": ["U1a", "U1b", "U2"], "ab": [], "c2": []},
+                      features={"two-workers"}, oracles={"C06"}, label="%s/wsgi+two-workers" % ("tree" if tier == "quick" else "bare")))
     if tier == "thorough":
         out.append(Config(front="aio", backend="bare", prefix="/dav/", names={"cal": list(names[:2]), "ab": [], "c2": []}, bodies={"cal": list(bods[:6]), "ab": [], "c2": []},
                           features={"restart", "post", "burst"}, oracles={"C06"}))
